@@ -76,27 +76,41 @@ class MG:
             _fs(e for e in self.B if not (e & S)),
         )
 
+    def _adj(self) -> tuple[dict, dict]:
+        """(parents, children) maps, built once per model (plain dict look-ups keep 1 000-node chains cheap)."""
+        adj = self.__dict__.get("_adj_cache")
+        if adj is None:
+            pa: dict = {n: set() for n in self.N}
+            ch: dict = {n: set() for n in self.N}
+            for u, v in self.D:
+                pa.setdefault(v, set()).add(u)
+                ch.setdefault(u, set()).add(v)
+            adj = (pa, ch)
+            object.__setattr__(self, "_adj_cache", adj)
+        return adj
+
     def parents(self, n: str) -> frozenset:
-        return _fs(u for u, v in self.D if v == n)
+        return _fs(self._adj()[0].get(n, ()))
 
     def children(self, n: str) -> frozenset:
-        return _fs(v for u, v in self.D if u == n)
+        return _fs(self._adj()[1].get(n, ()))
+
+    def _closure(self, S: Iterable[str], nbr: dict) -> frozenset:
+        cur = set(S)
+        todo = list(cur)
+        while todo:  # work-list fix-point: reflexive-transitive closure over directed edges
+            x = todo.pop()
+            for y in nbr.get(x, ()):
+                if y not in cur:
+                    cur.add(y)
+                    todo.append(y)
+        return _fs(cur)
 
     def ancestors_inclusive(self, S: Iterable[str]) -> frozenset:
-        cur = set(S)
-        while True:
-            new = {u for u, v in self.D if v in cur} - cur
-            if not new:
-                return _fs(cur)
-            cur |= new
+        return self._closure(S, self._adj()[0])
 
     def descendants_inclusive(self, S: Iterable[str]) -> frozenset:
-        cur = set(S)
-        while True:
-            new = {v for u, v in self.D if u in cur} - cur
-            if not new:
-                return _fs(cur)
-            cur |= new
+        return self._closure(S, self._adj()[1])
 
     def districts(self) -> frozenset:
         parent = {n: n for n in self.N}
